@@ -153,6 +153,80 @@ Proof.
            ++ rewrite <- He, Eb. reflexivity.
 Qed.
 
+
+(* ---------- conservation: a buffered writer moves bytes, it neither invents nor (without an error) loses any ---------- *)
+Lemma prefix_length (a b : bytes) : prefix a b -> length a <= length b.
+Proof. intros [t ->]. rewrite app_length. lia. Qed.
+Lemma prefix_firstn (a b : bytes) : prefix a b -> firstn (length a) b = a.
+Proof. intros [t ->]. rewrite firstn_app, Nat.sub_diag, firstn_all. cbn. apply app_nil_r. Qed.
+
+Lemma write_sticky direct fuel b w s x : berr b = Some x -> writeT direct fuel b w s = (b, w).
+Proof. intros H. destruct fuel; cbn [bw_write]; rewrite H; reflexivity. Qed.
+
+(* a flush moves bytes from the buffer to the writer behind it, and loses none *)
+Lemma flush_conserve b w b' w' : flushT b w = (b', w') -> recv w' ++ buf b' = recv w ++ buf b.
+Proof.
+  intros H. unfold bw_flush in H.
+  destruct (berr b); [inversion H; subst; reflexivity|].
+  destruct (buf b) eqn:Bb; [inversion H; subst; rewrite Bb; reflexivity|]. rewrite <- Bb in *.
+  unfold sink_call in H. destruct (sink (sst w) (buf b)) as [[n e] s'].
+  destruct e as [x|].
+  - inversion H; subst. cbn [recv buf]. rewrite <- app_assoc, firstn_skipn. reflexivity.
+  - destruct (n <? length (buf b)) eqn:Lt.
+    + inversion H; subst. cbn [recv buf]. rewrite <- app_assoc, firstn_skipn. reflexivity.
+    + apply Nat.ltb_ge in Lt. inversion H; subst. cbn [recv buf]. rewrite firstn_all2 by exact Lt. apply app_nil_r.
+Qed.
+
+Lemma flush_err_sticky b w b' w' : flushT b w = (b', w') -> berr b' = None -> berr b = None.
+Proof.
+  intros H E. destruct (berr b) eqn:Eb; [|reflexivity].
+  unfold bw_flush in H. rewrite Eb in H. inversion H; subst. congruence.
+Qed.
+
+(* a write consumes a prefix t of what it is offered - all of it unless an error is recorded - and t ends up
+   behind the writer or in its buffer *)
+Lemma write_conserve direct fuel : forall b w s b' w', writeT direct fuel b w s = (b', w') ->
+  exists t, recv w' ++ buf b' = recv w ++ buf b ++ t /\ prefix t s /\ (berr b' = None -> t = s).
+Proof.
+  induction fuel as [|f IH]; intros b w s b' w' H; cbn [bw_write] in H.
+  - destruct (berr b) eqn:Eb.
+    + inversion H; subst. exists []. rewrite app_nil_r. split; [reflexivity|]. split; [apply prefix_nil|congruence].
+    + destruct (length s <=? cap - length (buf b)); inversion H; subst; cbn [recv buf berr].
+      * exists s. split; [reflexivity|]. split; [apply prefix_refl|reflexivity].
+      * exists []. rewrite app_nil_r. split; [reflexivity|]. split; [apply prefix_nil|discriminate].
+  - destruct (berr b) eqn:Eb.
+    + inversion H; subst. exists []. rewrite app_nil_r. split; [reflexivity|]. split; [apply prefix_nil|congruence].
+    + destruct (length s <=? cap - length (buf b)).
+      * inversion H; subst; cbn [recv buf berr]. exists s. split; [reflexivity|]. split; [apply prefix_refl|reflexivity].
+      * destruct (direct && is_nil (buf b)) eqn:D.
+        -- apply andb_prop in D as [_ Nil]. destruct (buf b) eqn:Bb; [|discriminate].
+           unfold sink_call in H. destruct (sink (sst w) s) as [[n e] s'].
+           destruct (IH _ _ _ _ _ H) as [t2 [E2 [P2 F2]]]. cbn [recv buf] in E2.
+           exists (firstn n s ++ t2). split; [|split].
+           ++ rewrite E2. cbn [app]. rewrite <- app_assoc. reflexivity.
+           ++ rewrite <- (firstn_skipn n s) at 2. apply prefix_app_l. exact P2.
+           ++ intros En. rewrite (F2 En). apply firstn_skipn.
+        -- set (n := cap - length (buf b)) in *.
+           destruct (flushT {| buf := buf b ++ firstn n s; berr := None |} w) as [b1 w1] eqn:F.
+           pose proof (flush_conserve _ _ _ _ F) as C1. cbn [buf] in C1.
+           destruct (IH _ _ _ _ _ H) as [t2 [E2 [P2 F2]]].
+           exists (firstn n s ++ t2). split; [|split].
+           ++ rewrite E2, app_assoc, C1. rewrite <- !app_assoc. reflexivity.
+           ++ rewrite <- (firstn_skipn n s) at 2. apply prefix_app_l. exact P2.
+           ++ intros En. rewrite (F2 En). apply firstn_skipn.
+Qed.
+
+(* a flush, a write only ever add to the record of calls *)
+Lemma flush_log b w b' w' : flushT b w = (b', w') -> exists l2, log w' = log w ++ l2.
+Proof.
+  intros H. unfold bw_flush in H.
+  destruct (berr b); [inversion H; subst; exists []; symmetry; apply app_nil_r|].
+  destruct (buf b) eqn:Bb; [inversion H; subst; exists []; symmetry; apply app_nil_r|]. rewrite <- Bb in *.
+  unfold sink_call in H. destruct (sink (sst w) (buf b)) as [[n e] s'].
+  destruct (match e with Some x => Some x | None => if n <? length (buf b) then Some EShortWrite else None end);
+    inversion H; subst; cbn [log]; eexists; reflexivity.
+Qed.
+
 (* the two facts C10 needs *)
 Lemma received_is_prefix written b w : Inv written b w -> prefix (recv w) written.
 Proof. intros [[rest [Hw _]] _]. exists (buf b ++ rest). exact Hw. Qed.
